@@ -443,14 +443,28 @@ func checkC16(tier, replay string) int {
 	if replay != "" {
 		var f struct {
 			Case struct {
-				Parser string `json:"parser"`
-				Shapes []int  `json:"shapes"`
-				NL     bool   `json:"trailing_newline"`
+				Parser string   `json:"parser"`
+				Shapes []int    `json:"shapes"`
+				NL     bool     `json:"trailing_newline"`
+				Seq    []string `json:"call_sequence"`
 			} `json:"case"`
 		}
 		if err := readJSON(replay, &f); err != nil {
 			fmt.Println(err)
 			return 2
+		}
+		if len(f.Case.Seq) > 0 {
+			fmt.Printf("call sequence in one process: %v\n", f.Case.Seq)
+			c16Sequences(ctx, tier, map[string]map[int]string{"x86_64": parsers[0].names, "i386": parsers[1].names}, f.Case.Seq)
+			if ctx.NumViolations() > 0 {
+				for _, l := range ctx.Describe() {
+					fmt.Println(l)
+				}
+				fmt.Println("REPRODUCED")
+				return 1
+			}
+			fmt.Println("not reproduced")
+			return 0
 		}
 		pc := parsers[0]
 		if f.Case.Parser == "i386" {
@@ -536,6 +550,11 @@ func checkC16(tier, replay string) int {
 	ctx.Cov["real_listing_lines"] = realLines
 	ctx.Cov["real_listing_syscall_sites"] = realSites
 	ctx.Cov["real_listing_prefixes_at_function_boundaries"] = realPrefixes
+	if replay == "" {
+		seqs, seqSteps := c16Sequences(ctx, tier, map[string]map[int]string{"x86_64": parsers[0].names, "i386": parsers[1].names}, nil)
+		ctx.Cov["call_sequences_in_one_process"] = seqs
+		ctx.Cov["call_sequence_steps_checked"] = seqSteps
+	}
 	// fault enumeration: a read error at every read call, and unreadable inputs
 	faults := c16ReadFaults(ctx, scratch)
 	ctx.Cov["evaluations"] = parsed + faults
@@ -548,7 +567,8 @@ func checkC16(tier, replay string) int {
 	ctx.Cov["read_fault_runs"] = faults
 	ctx.Cov["max_lines"] = maxLines
 	ctx.Cov["long_function_sweep_max"] = c16LongFunctions
-	ctx.Cov["rule"] = fmt.Sprintf("all texts of <= %d lines over a %d-shape line alphabet (5 kinds of function marker incl. 'TEXT ', bare 'TEXT' and a generic symbol containing blanks, raw syscall instruction with and without location fields, the other architecture's raw instruction, number loads into AX/BP/stack, negative/unparsable/unknown numbers, the XOR idiom, calls of syscall.Syscall with and without location fields, neutral, empty and a 70000-byte line) for both parsers, with and without trailing newline, parsed by the real ExtractSyscalls under recover and compared with an independent site-model parser (number, name, caller, location), with the oracle tables, for monotonicity under appended functions and for an error whenever the text cannot be read to the end; plus the real `go tool objdump` output of a sample Go program built for amd64 and 386 (whole, and cut at function boundaries) compared with a text-level site model written without regular expressions, generated multi-function listings (all twelve wrapper entry points as callees and as containing functions; function markers of 600 and 5000 bytes; also with numbers carrying the x32 marker bit 0x40000000 on top of a valid number), a size sweep (load and site n neutral instructions apart for every n up to the bound in long_function_sweep_max, alone and followed by another function) the same three listings read through a named pipe written in pieces, and a read error injected (strace) at every read call of 3 listings; non-trivial = parses that report at least one syscall", maxLines, shCount)
+	ctx.Cov["unresolvable_site_count_sweep_max"] = c16ManyUnresolved
+	ctx.Cov["rule"] = fmt.Sprintf("all texts of <= %d lines over a %d-shape line alphabet (5 kinds of function marker incl. 'TEXT ', bare 'TEXT' and a generic symbol containing blanks, raw syscall instruction with and without location fields, the other architecture's raw instruction, number loads into AX/BP/stack, negative/unparsable/unknown numbers, the XOR idiom, calls of syscall.Syscall with and without location fields, neutral, empty and a 70000-byte line) for both parsers, with and without trailing newline, parsed by the real ExtractSyscalls under recover and compared with an independent site-model parser (number, name, caller, location), with the oracle tables, for monotonicity under appended functions and for an error whenever the text cannot be read to the end; plus the real `go tool objdump` output of a sample Go program built for amd64 and 386 (whole, and cut at function boundaries) compared with a text-level site model written without regular expressions, generated multi-function listings (all twelve wrapper entry points as callees and as containing functions; function markers of 600 and 5000 bytes; also with numbers carrying the x32 marker bit 0x40000000 on top of a valid number), a size sweep (load and site n neutral instructions apart for every n up to the bound in long_function_sweep_max, alone and followed by another function), a count sweep (m functions whose site has no determinable number - no load, an unparsable number, an unknown number - between two ordinary sites, for every m up to the bound in unresolvable_site_count_sweep_max), the same three listings read through a named pipe written in pieces, a read error injected (strace) at every read call of 3 listings, and every sequence of <= 3 (thorough 4) calls over {x86_64, x32, i386, arm} on one listing in one fresh process (each x86_64 / i386 answer must be the listing's sites whatever was called before); non-trivial = parses that report at least one syscall", maxLines, shCount)
 	ctx.Assumptions = []string{"site model: the number is taken from the nearest preceding number-loading instruction of the same function after the previous detected site; raw sites inside syscall.Syscall wrappers are not sites", "strace fault injection (-e inject=read:error=EIO:when=N) realises read failures"}
 	ctx.Sample(map[string]any{"text": []string{"TEXT main.f0(SB) /src/f.go", "  f.go:1\t0x401001\t0f05\tMOVQ $0x3b, AX", "TEXT main.f2(SB) /src/f.go", "  f.go:3\t0x401003\t0f05\tSYSCALL"}, "expected": "no syscall: the load belongs to another function"})
 	return ctx.Finish()
@@ -630,13 +650,36 @@ func c16Listings(ctx *evid.Ctx, check checkTextAdapter, tier string) {
 		}
 	}
 	c16LongFunctions = maxN
+	// count sweep: m sites whose number cannot be determined (no load in the function, an unparsable or unknown number), each in
+	// its own function, between two ordinary sites, for every m up to the bound: a text with many such sites is still a readable
+	// text, and what was found before and after them is still reported
+	maxM := 320
+	if tier == "thorough" {
+		maxM = 2200
+	}
+	stepM := 1
+	for m := 0; m <= maxM; m += stepM {
+		if m > 400 {
+			stepM = 13
+		}
+		for _, bad := range [][]int{{shCall}, {shRaw}, {shLoadBad, shRaw}, {shLoadUnknown, shNeutral, shCall}} {
+			t := []int{shFunc, shLoadAX, shRaw}
+			for i := 0; i < m; i++ {
+				t = append(t, shFunc)
+				t = append(t, bad...)
+			}
+			t = append(t, shFunc, shLoadBP, shRaw)
+			jobs = append(jobs, t)
+		}
+	}
+	c16ManyUnresolved = maxM
 	parallelFor(len(jobs), func(i int) {
 		check(0, jobs[i])
 		check(1, jobs[i])
 	})
 }
 
-var c16LongFunctions int
+var c16LongFunctions, c16ManyUnresolved int
 
 // c16ReadFaults: for a few listings, fail the N-th read of the file for every N; also unreadable inputs.
 func c16ReadFaults(ctx *evid.Ctx, scratch string) int64 {
